@@ -83,7 +83,13 @@ func c08InplaceExisting(a vh.Args, r *vh.Result, c *c08Case) error {
 	// real, null run (odd/even count), real data right after it, more real chunks, another null run, tail
 	var blob []byte
 	var sizes []int
-	add := func(b []byte) { blob = append(blob, b...); sizes = append(sizes, len(b)) }
+	add := func(b []byte) {
+		if len(b) > max { // no chunk of the index may exceed its declared maximum
+			b = b[:max-1-len(b)%1000]
+		}
+		blob = append(blob, b...)
+		sizes = append(sizes, len(b))
+	}
 	add(rng.Bytes(3000 + rng.Intn(9000)))
 	for i := 0; i < 1+int(c.Seed%3); i++ {
 		add(make([]byte, max))
